@@ -169,11 +169,12 @@ impl Val {
     }
 
     /// "Same argument value" for the collision direction of the property: structural equality,
-    /// except that an integer literal and a float literal denoting the same number are the same
-    /// GraphQL input value for the server.
+    /// except that an integer literal and a float literal denoting the same number (the integer
+    /// coerced to Float equals the float) are the same GraphQL input value for the server.
     pub fn same_value(&self, o: &Val) -> bool {
         match (self, o) {
-            (Val::Int(i), Val::Float(f)) | (Val::Float(f), Val::Int(i)) => f.fract() == 0.0 && f.abs() < 9.0e18 && (*f as i64) == *i && !(*f == 0.0 && f.is_sign_negative()),
+            // the integer literal, coerced to Float as a server does, is that float
+            (Val::Int(i), Val::Float(f)) | (Val::Float(f), Val::Int(i)) => (*i as f64) == *f,
             (Val::Float(a), Val::Float(b)) => a == b,
             (Val::Obj(a), Val::Obj(b)) => a.len() == b.len() && a.iter().zip(b).all(|((ka, va), (kb, vb))| ka == kb && va.same_value(vb)),
             (a, b) => a == b,
